@@ -8,7 +8,8 @@ namespace RlModel
 structure Sync (s : Store) : Prop where
   closed : Closed s.manifest
   ok : (bootFold (replay s.manifest)).failed = none
-  cat : (bootFold (replay s.manifest)).cat = s.cat
+  /-- replay rebuilds the TABLE entries, with the same ids; views and indexes are not logged -/
+  cat : (bootFold (replay s.manifest)).cat.entries = s.cat.entries.filter (·.kind == .table)
   tables : (bootFold (replay s.manifest)).tables = s.tables
   rs : (bootFold (replay s.manifest)).rsOpen = s.rowsets
   dv : (bootFold (replay s.manifest)).dvOpen = s.dvs.map DvE.key
@@ -91,6 +92,32 @@ theorem foldl_dels : ∀ (recs : List Rec) (b : Boot), (∀ r ∈ recs, r.isDel 
 
 /-! ### the invariant -/
 
+/-- the catalog part of the invariant; `b` = what replaying the manifest rebuilds -/
+structure CatInv (s : Store) : Prop where
+  /-- replay's id counter is never ahead of the live one (it is behind by the number of views and
+  indexes created since the last table creation / reopen) -/
+  catNext : (bootFold (replay s.manifest)).cat.nextId ≤ s.cat.nextId
+  catIds : ∀ e ∈ s.cat.entries, e.id < s.cat.nextId
+  idsNodup : (s.cat.entries.map (·.id)).Nodup
+  namesNodup : (s.cat.entries.map (·.name)).Nodup
+  catTab : ∀ e ∈ s.cat.entries, e.kind = .table → (lookup e.id s.tables).isSome
+  bootIds : ∀ e ∈ (bootFold (replay s.manifest)).cat.entries, e.id < (bootFold (replay s.manifest)).cat.nextId
+  bootTabIds : ∀ x ∈ s.tables, x.1 < (bootFold (replay s.manifest)).cat.nextId
+  tabIds : ∀ x ∈ s.tables, x.1 < s.cat.nextId
+
+/-- statements that leave the catalog, the table list and the replayed catalog alone -/
+theorem CatInv.transfer {s s' : Store} (h : CatInv s) (hc : s'.cat = s.cat) (ht : s'.tables = s.tables)
+    (hb : (bootFold (replay s'.manifest)).cat = (bootFold (replay s.manifest)).cat) : CatInv s' := by
+  refine ⟨?_, ?_, ?_, ?_, ?_, ?_, ?_, ?_⟩
+  · rw [hb, hc]; exact h.catNext
+  · rw [hc]; exact h.catIds
+  · rw [hc]; exact h.idsNodup
+  · rw [hc]; exact h.namesNodup
+  · rw [hc, ht]; exact h.catTab
+  · rw [hb]; exact h.bootIds
+  · rw [hb, ht]; exact h.bootTabIds
+  · rw [hc, ht]; exact h.tabIds
+
 structure Inv (s : Store) : Prop where
   wf : Wf s
   sync : Sync s
@@ -99,16 +126,69 @@ structure Inv (s : Store) : Prop where
   dvLive : ∀ e ∈ s.dvs, (e.tid, e.rs) ∈ s.rowsets          -- no DV outlives its row-set
   dvIds : ∀ e ∈ s.dvs, e.dv < s.nextDv
   dvFileIds : ∀ x ∈ s.dvFiles, x.1.2.2 < s.nextDv       -- no DV file carries an id not yet handed out
-  catIds : ∀ e ∈ s.cat.entries, e.id < s.cat.nextId ∧ e.kind = .table
-  idsNodup : (s.cat.entries.map (·.id)).Nodup
-  namesNodup : (s.cat.entries.map (·.name)).Nodup
-  catTab : ∀ e ∈ s.cat.entries, (lookup e.id s.tables).isSome
-  tabIds : ∀ x ∈ s.tables, x.1 < s.cat.nextId
+  cati : CatInv s
   rsTables : ∀ k ∈ s.rowsets, (lookup k.1 s.tables).isSome
   dvTables : ∀ e ∈ s.dvs, (lookup e.tid s.tables).isSome
 
-theorem Inv.reopenHyp {s : Store} (h : Inv s) : ReopenHyp s :=
-  ⟨h.sync.ok, by rw [h.sync.cat], h.sync.tables, h.sync.rs, h.sync.dv, h.dirs, h.rsTables, h.dvTables, h.dvFiles⟩
+theorem Inv.catIds {s : Store} (h : Inv s) : ∀ e ∈ s.cat.entries, e.id < s.cat.nextId := h.cati.catIds
+theorem Inv.idsNodup {s : Store} (h : Inv s) : (s.cat.entries.map (·.id)).Nodup := h.cati.idsNodup
+theorem Inv.namesNodup {s : Store} (h : Inv s) : (s.cat.entries.map (·.name)).Nodup := h.cati.namesNodup
+theorem Inv.catTab {s : Store} (h : Inv s) : ∀ e ∈ s.cat.entries, e.kind = .table → (lookup e.id s.tables).isSome :=
+  h.cati.catTab
+theorem Inv.tabIds {s : Store} (h : Inv s) : ∀ x ∈ s.tables, x.1 < s.cat.nextId := h.cati.tabIds
+
+/-- table names resolve the same whether or not the view entries are there (names are unique) -/
+theorem find?_filter_table (entries : List CatEntry) (hn : (entries.map (·.name)).Nodup) (n : String) :
+    (match (entries.filter (·.kind == Kind.table)).find? (·.name == n) with
+      | some e => if e.kind == Kind.table then some e.id else none
+      | none => none) =
+    (match entries.find? (·.name == n) with
+      | some e => if e.kind == Kind.table then some e.id else none
+      | none => none) := by
+  induction entries with
+  | nil => rfl
+  | cons x l ih =>
+    simp only [List.map_cons, List.nodup_cons] at hn
+    have ihl := ih hn.2
+    by_cases hx : (x.name == n) = true
+    · -- x is THE entry named n: nothing later has that name
+      have hnone : l.find? (·.name == n) = none := by
+        rw [List.find?_eq_none]
+        intro y hy hyn
+        have : y.name = x.name := by simp at hyn hx; rw [hyn, hx]
+        exact hn.1 (List.mem_map.mpr ⟨y, hy, this⟩)
+      have hnone' : (l.filter (·.kind == Kind.table)).find? (·.name == n) = none := by
+        rw [List.find?_eq_none]
+        intro y hy
+        exact List.find?_eq_none.mp hnone y (List.mem_filter.mp hy).1
+      by_cases hk : (x.kind == Kind.table) = true
+      · simp [List.filter_cons, hk, List.find?_cons, hx]
+      · simp [List.filter_cons, hk, List.find?_cons, hx, hnone']
+    · by_cases hk : (x.kind == Kind.table) = true
+      · simp only [List.filter_cons, hk, if_true, List.find?_cons, hx]
+        exact ihl
+      · simp only [List.filter_cons, hk, Bool.false_eq_true, if_false, List.find?_cons, hx]
+        exact ihl
+
+theorem tableId?_of_sync {s s' : Store} (h : s'.cat.entries = s.cat.entries.filter (·.kind == .table))
+    (hn : (s.cat.entries.map (·.name)).Nodup) (n : String) : s'.tableId? n = s.tableId? n := by
+  simp only [Store.tableId?, Catalog.find?, h]
+  exact find?_filter_table s.cat.entries hn n
+
+theorem abs_congr' (s s' : Store) (hid : ∀ n, s'.tableId? n = s.tableId? n) (h2 : s'.tables = s.tables)
+    (h3 : s'.rowsets = s.rowsets) (h4 : s'.dvs = s.dvs)
+    (h5 : ∀ k ∈ s.rowsets, lookup k s'.dirs = lookup k s.dirs) (n : String) : s'.abs n = s.abs n := by
+  unfold Store.abs
+  rw [hid, h2]
+  cases s.tableId? n with
+  | none => rfl
+  | some tid =>
+    simp only
+    cases lookup tid s.tables with
+    | none => rfl
+    | some d =>
+      simp only [Option.some.injEq, Prod.mk.injEq, true_and]
+      exact scan_congr s s' tid (by simp [Store.rowsetsOf, h3]) h4 (fun rs hrs => h5 _ hrs)
 
 theorem Inv.rowsetsNodup {s : Store} (h : Inv s) : s.rowsets.Nodup := by
   have := (bootFold_fresh (replay s.manifest)).2.2.1
@@ -119,7 +199,7 @@ theorem Inv.dvKeysNodup {s : Store} (h : Inv s) : (s.dvs.map DvE.key).Nodup := b
   rwa [h.sync.dv] at this
 
 theorem inv_init : Inv Store.init := by
-  refine ⟨wf_init, sync_init, ?_, ?_, ?_, ?_, ?_, ?_, ?_, ?_, ?_, ?_, ?_, ?_⟩ <;> simp [Store.init]
+  refine ⟨wf_init, sync_init, ?_, ?_, ?_, ?_, ?_, ⟨?_, ?_, ?_, ?_, ?_, ?_, ?_, ?_⟩, ?_, ?_⟩ <;> first | (simp [Store.init]; done) | decide
 
 theorem lookup_isSome_of_mem {α β} [BEq α] [LawfulBEq α] (k : α) (v : β) : ∀ l : List (α × β), (k, v) ∈ l → (lookup k l).isSome
   | [], h => by simp at h
@@ -192,7 +272,7 @@ theorem insert_inv (s : Store) (inv : Inv s) (n : String) (parts : List (List Ro
     omega
   refine ⟨hwf, ⟨by rw [f8]; exact c1, by rw [hA.1.2.2.2]; exact inv.sync.ok, by rw [hA.1.1, f1]; exact inv.sync.cat,
       by rw [hA.1.2.1, f2]; exact inv.sync.tables, ?_, by rw [hA.2.1, f3]; exact inv.sync.dv⟩,
-    ?_, ?_, ?_, ?_, ?_, ?_, ?_, ?_, ?_, ?_, ?_, ?_⟩
+    ?_, ?_, ?_, ?_, ?_, ?_, ?_, ?_⟩
   · rw [hA.2.2.2, inv.sync.rs, f7]
     exact foldl_setInsert_nodup _ _ hnd
   · intro k hk
@@ -208,11 +288,7 @@ theorem insert_inv (s : Store) (inv : Inv s) (n : String) (parts : List (List Ro
   · intro e he; rw [f3] at he; rw [f7]; exact List.mem_append_left _ (inv.dvLive e he)
   · intro e he; rw [f3] at he; rw [f5]; exact inv.dvIds e he
   · rw [f4, f5]; exact inv.dvFileIds
-  · rw [f1]; exact inv.catIds
-  · rw [f1]; exact inv.idsNodup
-  · rw [f1]; exact inv.namesNodup
-  · rw [f1, f2]; exact inv.catTab
-  · rw [f1, f2]; exact inv.tabIds
+  · exact inv.cati.transfer f1 f2 hA.1.1
   · intro k hk
     rw [f7] at hk; rw [f2]
     rcases List.mem_append.mp hk with hk | hk
@@ -305,9 +381,8 @@ theorem delete_inv (s : Store) (inv : Inv s) (n : String) (p : Row → Bool) (ti
   obtain ⟨f1, f2, f3, f4, f5, f6, f7, _⟩ := delete_fields s n p tid h1
   obtain ⟨g1, g2, g3⟩ := delete_fields2 s n p tid h1
   have hwf := (delete_scan s inv.wf n p tid h1).1
-  obtain ⟨e0, he0, hid, _, _⟩ := tableId?_mem s n tid h1
-  have htab : (lookup tid s.tables).isSome := by rw [← hid]; exact inv.catTab e0 he0
-  have htid : tid < s.cat.nextId := by rw [← hid]; exact (inv.catIds e0 he0).1
+  obtain ⟨e0, he0, hid, _, hk0⟩ := tableId?_mem s n tid h1
+  have htab : (lookup tid s.tables).isSome := by rw [← hid]; exact inv.catTab e0 he0 hk0
   generalize hnd : mkDvs tid (delHits s tid p) s.nextDv = nd at f7 g1 g2 g3 hfree
   have hmem := mkDvs_mem tid (delHits s tid p) s.nextDv
   obtain ⟨hsp1, hsp2⟩ := mkDvs_spec tid (delHits s tid p) s.nextDv
@@ -338,7 +413,7 @@ theorem delete_inv (s : Store) (inv : Inv s) (n : String) (p : Row → Bool) (ti
     rw [List.map_map]; exact hsp2
   refine ⟨hwf, ⟨by rw [g3]; exact c1, by rw [hA.1.2.2.2]; exact inv.sync.ok, by rw [hA.1.1, f1]; exact inv.sync.cat,
       by rw [hA.1.2.1, f2]; exact inv.sync.tables, by rw [hA.2.1, f3]; exact inv.sync.rs, ?_⟩,
-    ?_, ?_, ?_, ?_, ?_, ?_, ?_, ?_, ?_, ?_, ?_, ?_⟩
+    ?_, ?_, ?_, ?_, ?_, ?_, ?_, ?_⟩
   · rw [hA.2.2.2, inv.sync.dv, f7, List.map_append]
     exact foldl_setInsert_nodup _ _ hnodup
   · intro k hk; rw [f3] at hk; rw [f4]; exact inv.dirs k hk
@@ -370,11 +445,7 @@ theorem delete_inv (s : Store) (inv : Inv s) (n : String) (p : Row → Bool) (ti
     · have := inv.dvFileIds x hx; omega
     · obtain ⟨e, he, rfl⟩ := List.mem_map.mp hx
       exact (hsp1 e he).2.1
-  · rw [f1]; exact inv.catIds
-  · rw [f1]; exact inv.idsNodup
-  · rw [f1]; exact inv.namesNodup
-  · rw [f1, f2]; exact inv.catTab
-  · rw [f1, f2]; exact inv.tabIds
+  · exact inv.cati.transfer f1 f2 hA.1.1
   · rw [f3, f2]; exact inv.rsTables
   · intro e he
     rw [f7] at he; rw [f2]
@@ -387,7 +458,7 @@ theorem delete_inv (s : Store) (inv : Inv s) (n : String) (p : Row → Bool) (ti
 theorem vacuum_inv (s : Store) (inv : Inv s) : Inv s.vacuum := by
   have hwf := (vacuum_scan s inv.wf).1
   refine ⟨hwf, ⟨inv.sync.closed, inv.sync.ok, inv.sync.cat, inv.sync.tables, inv.sync.rs, inv.sync.dv⟩,
-    ?_, inv.dvFiles, inv.dvLive, inv.dvIds, inv.dvFileIds, inv.catIds, inv.idsNodup, inv.namesNodup, inv.catTab, inv.tabIds,
+    ?_, inv.dvFiles, inv.dvLive, inv.dvIds, inv.dvFileIds, inv.cati.transfer rfl rfl rfl,
     inv.rsTables, inv.dvTables⟩
   intro k hk
   have hnp : s.pending.contains k = false := by
@@ -399,7 +470,8 @@ theorem vacuum_inv (s : Store) (inv : Inv s) : Inv s.vacuum := by
   rw [this]; exact inv.dirs k hk
 
 theorem Sync.mk' {s' : Store} {b : Boot} (hb : bootFold (replay s'.manifest) = b) (hc : Closed s'.manifest)
-    (ok : b.failed = none) (cat : b.cat = s'.cat) (tables : b.tables = s'.tables) (rs : b.rsOpen = s'.rowsets)
+    (ok : b.failed = none) (cat : b.cat.entries = s'.cat.entries.filter (·.kind == Kind.table))
+    (tables : b.tables = s'.tables) (rs : b.rsOpen = s'.rowsets)
     (dv : b.dvOpen = s'.dvs.map DvE.key) : Sync s' := by
   subst hb; exact ⟨hc, ok, cat, tables, rs, dv⟩
 
@@ -486,8 +558,8 @@ theorem compactTable_inv (s : Store) (inv : Inv s) (tid : Nat) (d : TableDef) (s
       refine ⟨hwf, Sync.mk' c2 c1 (by rw [hD.1.2.2.2]; exact inv.sync.ok) (by rw [hD.1.1]; exact inv.sync.cat)
           (by rw [hD.1.2.1]; exact inv.sync.tables) ?_ ?_,
         fun k hk => inv.dirs k (hkeepSub k hk), fun e he => inv.dvFiles e (hdvSub e he), hdvLive,
-        fun e he => inv.dvIds e (hdvSub e he), inv.dvFileIds, inv.catIds, inv.idsNodup,
-        inv.namesNodup, inv.catTab, inv.tabIds, fun k hk => inv.rsTables k (hkeepSub k hk),
+        fun e he => inv.dvIds e (hdvSub e he), inv.dvFileIds,
+        inv.cati.transfer rfl rfl (by show (bootFold (replay (s.manifest ++ txn _))).cat = _; exact (congrArg Boot.cat c2).trans hD.1.1), fun k hk => inv.rsTables k (hkeepSub k hk),
         fun e he => inv.dvTables e (hdvSub e he)⟩
       · rw [hD.2.1, inv.sync.rs]
         apply List.filter_congr
@@ -521,8 +593,8 @@ theorem compactTable_inv (s : Store) (inv : Inv s) (tid : Nat) (d : TableDef) (s
       refine ⟨hwf, Sync.mk' c2 c1 (by rw [hD.1.2.2.2]; exact inv.sync.ok) (by rw [hD.1.1]; exact inv.sync.cat)
           (by rw [hD.1.2.1]; exact inv.sync.tables) ?_ ?_,
         ?_, fun e he => inv.dvFiles e (hdvSub e he), fun e he => List.mem_append_left _ (hdvLive e he),
-        fun e he => inv.dvIds e (hdvSub e he), inv.dvFileIds, inv.catIds, inv.idsNodup,
-        inv.namesNodup, inv.catTab, inv.tabIds, ?_, fun e he => inv.dvTables e (hdvSub e he)⟩
+        fun e he => inv.dvIds e (hdvSub e he), inv.dvFileIds,
+        inv.cati.transfer rfl rfl (by show (bootFold (replay (s.manifest ++ txn _))).cat = _; exact (congrArg Boot.cat c2).trans hD.1.1), ?_, fun e he => inv.dvTables e (hdvSub e he)⟩
       · rw [hD.2.1, inv.sync.rs, setInsert, hfresh]
         simp only [Bool.false_eq_true, if_false, List.filter_append]
         congr 1
@@ -596,36 +668,58 @@ theorem createTable_fields (s : Store) (d : TableDef) (id : Nat) (c' : Catalog) 
   simp only [Store.createTable, h, Store.commit]
   simp
 
+/-- `halign`: the id the live catalog is about to hand out is the one a replay of the log would hand
+out (no view / index has taken an id since the last CREATE TABLE or reopen).  This is the exact
+condition: otherwise the logged records of the new table carry an id the replay gives to another. -/
 theorem createTable_inv (s : Store) (inv : Inv s) (d : TableDef) (id : Nat) (c' : Catalog)
-    (h : s.cat.add d.name .table = some (id, c')) : Inv (s.createTable d).1 := by
+    (h : s.cat.add d.name .table = some (id, c'))
+    (halign : (bootFold (replay s.manifest)).cat.nextId = s.cat.nextId) : Inv (s.createTable d).1 := by
   obtain ⟨f1, f2, f3, f4, f5, f6, f7, f8, f9, f10, _⟩ := createTable_fields s d id c' h
   obtain ⟨a1, a2, a3⟩ := add_spec _ _ _ _ _ h
   subst a2
   have hnm : ∀ r ∈ [Rec.createTable d], r.isMark = false := by intro r hr; simp at hr; subst hr; rfl
   obtain ⟨c1, c2⟩ := sync_commit s.manifest _ inv.sync.closed hnm
+  have hbfind : (bootFold (replay s.manifest)).cat.find? d.name = none := by
+    simp only [Catalog.find?, inv.sync.cat]
+    rw [List.find?_eq_none]
+    intro x hx
+    have : s.cat.entries.find? (fun e => e.name == d.name) = none := a1
+    exact List.find?_eq_none.mp this x (List.mem_filter.mp hx).1
   have hstep : (bootFold (replay s.manifest)).step (Rec.createTable d) =
       { bootFold (replay s.manifest) with
-        cat := c'
+        cat := { (bootFold (replay s.manifest)).cat with
+                 nextId := s.cat.nextId + 1
+                 entries := (bootFold (replay s.manifest)).cat.entries ++ [⟨s.cat.nextId, d.name, .table⟩] }
         tables := s.tables ++ [(s.cat.nextId, d)]
         tableOps := (bootFold (replay s.manifest)).tableOps ++ [Rec.createTable d] } := by
     unfold Boot.step
-    simp only [inv.sync.ok, Option.isSome_none, Bool.false_eq_true, if_false, inv.sync.cat, h, inv.sync.tables]
+    simp only [inv.sync.ok, Option.isSome_none, Bool.false_eq_true, if_false, Catalog.add, hbfind, halign,
+      inv.sync.tables]
   simp only [List.foldl_cons, List.foldl_nil, hstep] at c2
   rw [← f10] at c1 c2
   have hlk : ∀ t, (lookup t s.tables).isSome → (lookup t (s.tables ++ [(s.cat.nextId, d)])).isSome := by
     intro t ht; rw [lookup_append_isSome _ _ _ ht]; exact ht
+  have hbcat : (bootFold (replay (s.createTable d).1.manifest)).cat =
+      { (bootFold (replay s.manifest)).cat with
+        nextId := s.cat.nextId + 1
+        entries := (bootFold (replay s.manifest)).cat.entries ++ [⟨s.cat.nextId, d.name, .table⟩] } := by
+    rw [c2]
   refine ⟨⟨by rw [f8, f6]; exact inv.wf.dirs, by rw [f3, f6]; exact inv.wf.rs, by rw [f4, f6]; exact inv.wf.dv,
       by rw [f5, f3, f6]; exact inv.wf.pend⟩,
-    Sync.mk' c2 c1 inv.sync.ok f1.symm f2.symm (by rw [f3]; exact inv.sync.rs) (by rw [f4]; exact inv.sync.dv),
+    Sync.mk' c2 c1 inv.sync.ok ?_ f2.symm (by rw [f3]; exact inv.sync.rs) (by rw [f4]; exact inv.sync.dv),
     by rw [f3, f8]; exact inv.dirs, by rw [f4, f9]; exact inv.dvFiles, by rw [f4, f3]; exact inv.dvLive,
     by rw [f4, f7]; exact inv.dvIds, by rw [f9, f7]; exact inv.dvFileIds,
-    ?_, ?_, ?_, ?_, ?_, ?_, ?_⟩
+    ⟨?_, ?_, ?_, ?_, ?_, ?_, ?_, ?_⟩, ?_, ?_⟩
+  · show (bootFold (replay s.manifest)).cat.entries ++ [⟨s.cat.nextId, d.name, .table⟩] = _
+    rw [f1, a3, inv.sync.cat]
+    simp [List.filter_append]
+  · rw [hbcat, f1, a3]; simp
   · rw [f1, a3]
     intro e he
     simp only at he ⊢
     rcases List.mem_append.mp he with he | he
-    · have := inv.catIds e he; exact ⟨by omega, this.2⟩
-    · simp at he; subst he; exact ⟨by simp, rfl⟩
+    · have := inv.catIds e he; omega
+    · simp at he; subst he; simp
   · rw [f1, a3]
     simp only [List.map_append, List.map_cons, List.map_nil]
     rw [List.nodup_append]
@@ -633,7 +727,7 @@ theorem createTable_inv (s : Store) (inv : Inv s) (d : TableDef) (id : Nat) (c' 
     intro a ha b hb hab
     simp at hb; subst hb; subst hab
     obtain ⟨e, he, hid⟩ := List.mem_map.mp ha
-    have := (inv.catIds e he).1
+    have := inv.catIds e he
     omega
   · rw [f1, a3]
     simp only [List.map_append, List.map_cons, List.map_nil]
@@ -643,16 +737,28 @@ theorem createTable_inv (s : Store) (inv : Inv s) (d : TableDef) (id : Nat) (c' 
     simp at hb; subst hb; subst hab
     exact find?_none_names _ _ a1 ha
   · rw [f1, a3, f2]
-    intro e he
+    intro e he hk
     simp only at he
     rcases List.mem_append.mp he with he | he
-    · exact hlk _ (inv.catTab e he)
+    · exact hlk _ (inv.catTab e he hk)
     · simp at he; subst he
       simp only
       rw [lookup_append]
       cases lookup s.cat.nextId s.tables with
       | some v => rfl
       | none => simp [lookup]
+  · rw [hbcat]
+    intro e he
+    simp only at he ⊢
+    rcases List.mem_append.mp he with he | he
+    · have := inv.cati.bootIds e he; omega
+    · simp at he; subst he; simp
+  · rw [hbcat, f2]
+    intro x hx
+    simp only
+    rcases List.mem_append.mp hx with hx | hx
+    · have := inv.cati.bootTabIds x hx; omega
+    · simp at hx; subst hx; simp
   · rw [f1, a3, f2]
     intro x hx
     simp only
@@ -709,12 +815,11 @@ theorem lookup_filter_ne {β} (tid : Nat) : ∀ l : List (Nat × β), lookup tid
     · have : (a == tid) = false := by simpa using h
       simp [h, lookup, this, lookup_filter_ne tid l]
 
-theorem drop_inv (s : Store) (inv : Inv s) (n : String) (e0 : CatEntry) (h : s.cat.find? n = some e0) :
-    Inv (s.drop n).1 := by
+theorem drop_inv (s : Store) (inv : Inv s) (n : String) (e0 : CatEntry) (h : s.cat.find? n = some e0)
+    (hk : e0.kind = .table) : Inv (s.drop n).1 := by
   have guard : ∀ e ∈ s.dvs, e.tid = e0.id → (e0.id, e.rs) ∈ s.rowsets :=
     fun e he ht => ht ▸ inv.dvLive e he
   have he0 : e0 ∈ s.cat.entries := List.mem_of_find?_eq_some h
-  have hk : e0.kind = .table := (inv.catIds e0 he0).2
   obtain ⟨f1, f2, f3, f4, f5, f6, f7, f8, f9, f10, _⟩ := drop_fields s n e0 h hk
   generalize htid : e0.id = tid at *
   have hrecsDel : ∀ r ∈ dropRecs s tid, r.isDel = true := by
@@ -727,17 +832,17 @@ theorem drop_inv (s : Store) (inv : Inv s) (n : String) (e0 : CatEntry) (h : s.c
     | head => rfl
     | tail _ hr => have := hrecsDel r hr; cases r <;> simp_all [Rec.isDel, Rec.isMark]
   obtain ⟨c1, c2⟩ := sync_commit s.manifest _ inv.sync.closed hnm
-  have htab : (lookup tid s.tables).isSome := by rw [← htid]; exact inv.catTab e0 he0
+  have htab : (lookup tid s.tables).isSome := by rw [← htid]; exact inv.catTab e0 he0 hk
   have hstep : (bootFold (replay s.manifest)).step (Rec.dropTable tid) =
       { bootFold (replay s.manifest) with
-        cat := s.cat.remove tid
+        cat := (bootFold (replay s.manifest)).cat.remove tid
         tables := s.tables.filter (·.1 != tid)
         tableOps := (bootFold (replay s.manifest)).tableOps ++ [Rec.dropTable tid] } := by
     unfold Boot.step
-    simp only [inv.sync.ok, Option.isSome_none, Bool.false_eq_true, if_false, inv.sync.cat, inv.sync.tables, htab, if_true]
+    simp only [inv.sync.ok, Option.isSome_none, Bool.false_eq_true, if_false, inv.sync.tables, htab, if_true]
   rw [List.foldl_cons, hstep] at c2
   have hD := foldl_dels (dropRecs s tid) _ hrecsDel (show ({ bootFold (replay s.manifest) with
-        cat := s.cat.remove tid
+        cat := (bootFold (replay s.manifest)).cat.remove tid
         tables := s.tables.filter (·.1 != tid)
         tableOps := (bootFold (replay s.manifest)).tableOps ++ [Rec.dropTable tid] } : Boot).failed = none from inv.sync.ok)
   simp only [Boot.tabPart, Prod.mk.injEq] at hD
@@ -755,8 +860,13 @@ theorem drop_inv (s : Store) (inv : Inv s) (n : String) (e0 : CatEntry) (h : s.c
     rw [ht, this] at h2
     simp at h2
   refine ⟨⟨by rw [f8, f6]; exact inv.wf.dirs, ?_, ?_, ?_⟩,
-    Sync.mk' c2 c1 (by rw [hD.1.2.2.2]; exact inv.sync.ok) (by rw [hD.1.1, f1]) (by rw [hD.1.2.1, f2]) ?_ ?_,
-    ?_, ?_, ?_, ?_, ?_, ?_, ?_, ?_, ?_, ?_, ?_, ?_⟩
+    Sync.mk' c2 c1 (by rw [hD.1.2.2.2]; exact inv.sync.ok)
+      (by rw [hD.1.1, f1]
+          simp only [Catalog.remove, inv.sync.cat, List.filter_filter]
+          apply List.filter_congr
+          intro x _
+          exact Bool.and_comm _ _) (by rw [hD.1.2.1, f2]) ?_ ?_,
+    ?_, ?_, ?_, ?_, ?_, ⟨?_, ?_, ?_, ?_, ?_, ?_, ?_, ?_⟩, ?_, ?_⟩
   · rw [f3, f6]; exact fun k hk => inv.wf.rs k (hkeep k hk).1
   · rw [f4, f6]; exact fun e he => inv.wf.dv e (hdvkeep e he).1
   · rw [f5, f3, f6]
@@ -794,15 +904,24 @@ theorem drop_inv (s : Store) (inv : Inv s) (n : String) (e0 : CatEntry) (h : s.c
     exact List.mem_filter.mpr ⟨inv.dvLive e hk.1, by simpa using hk.2⟩
   · rw [f4, f7]; exact fun e he => inv.dvIds e (hdvkeep e he).1
   · rw [f9, f7]; exact inv.dvFileIds
+  · have : (bootFold (replay (s.drop n).1.manifest)).cat.nextId = (bootFold (replay s.manifest)).cat.nextId := by
+      rw [c2, hD.1.1]; rfl
+    rw [this, f1]; exact inv.cati.catNext
   · rw [f1]; exact fun e he => inv.catIds e (List.mem_filter.mp he).1
   · rw [f1]; exact inv.idsNodup.sublist ((List.filter_sublist).map _)
   · rw [f1]; exact inv.namesNodup.sublist ((List.filter_sublist).map _)
   · rw [f1, f2]
-    intro e he
+    intro e he hke
     have := List.mem_filter.mp he
     have hne : e.id ≠ tid := by simpa using this.2
     rw [lookup_filter (fun a => a != tid) e.id (by simpa using hne)]
-    exact inv.catTab e this.1
+    exact inv.catTab e this.1 hke
+  · rw [c2, hD.1.1]
+    intro e he
+    exact inv.cati.bootIds e (List.mem_filter.mp he).1
+  · rw [c2, hD.1.1, f2]
+    intro x hx
+    exact inv.cati.bootTabIds x (List.mem_filter.mp hx).1
   · rw [f1, f2]; exact fun x hx => inv.tabIds x (List.mem_filter.mp hx).1
   · rw [f3, f2]
     intro k hk
@@ -816,55 +935,67 @@ theorem drop_inv (s : Store) (inv : Inv s) (n : String) (e0 : CatEntry) (h : s.c
 /-! ### reopen keeps the invariant -/
 
 theorem reopen_inv (s : Store) (inv : Inv s) :
-    ∃ s', s.reopen = .ok s' ∧ Inv s' ∧ (∀ n, s'.abs n = s.abs n) ∧ s'.cat = s.cat ∧ s'.tables = s.tables ∧
-      ∀ t, s'.scan t = s.scan t := by
-  have h := inv.reopenHyp
+    ∃ s', s.reopen = .ok s' ∧ Inv s' ∧ (∀ n, s'.abs n = s.abs n) ∧
+      s'.cat.entries = s.cat.entries.filter (·.kind == Kind.table) ∧ s'.tables = s.tables ∧
+      (∀ t, s'.scan t = s.scan t) ∧
+      (bootFold (replay s'.manifest)).cat.nextId = s'.cat.nextId := by
   have hfresh := bootFold_fresh (replay s.manifest)
   have hdirs : ∀ k ∈ s.rowsets, lookup k (s.dirs.filter fun x => s.rowsets.contains x.1) = lookup k s.dirs :=
     fun k hk => lookup_filter (fun a => s.rowsets.contains a) k (by simpa using hk) s.dirs
   have a1 : (s.rowsets.any fun k => (lookup k.1 s.tables).isNone) = false :=
     any_false_of_forall _ _ fun k hk => by
-      have := h.rsTables k hk
+      have := inv.rsTables k hk
       cases hl : lookup k.1 s.tables <;> simp_all
   have a2 : (s.rowsets.any fun k => (lookup k (s.dirs.filter fun x => s.rowsets.contains x.1)).isNone) = false :=
     any_false_of_forall _ _ fun k hk => by
       rw [hdirs k hk]
-      have := h.dirs k hk
+      have := inv.dirs k hk
       cases hl : lookup k s.dirs <;> simp_all
   have a3 : ((s.dvs.map DvE.key).any fun k => (lookup k.1 s.tables).isNone) = false :=
     any_false_of_forall _ _ fun k hk => by
       obtain ⟨e, he, rfl⟩ := List.mem_map.mp hk
-      have := h.dvTables e he
+      have := inv.dvTables e he
       cases hl : lookup e.key.1 s.tables <;> simp_all [DvE.key]
   have hrw := bootFold_rewrite (replay s.manifest) inv.sync.ok
   have hnm := rewriteOps_noMarks (replay s.manifest) inv.sync.ok
   have hrep := replay_txn _ hnm
   have hcl : Closed (txn (rewriteOps (bootFold (replay s.manifest)))) :=
     (replay_append_txn [] _ (by simp [Closed]) hnm).2
+  -- every entry the replay rebuilds is a table entry of the live catalog
+  have hbmem : ∀ e ∈ (bootFold (replay s.manifest)).cat.entries, e ∈ s.cat.entries ∧ e.kind = .table := by
+    intro e he
+    rw [inv.sync.cat] at he
+    have := List.mem_filter.mp he
+    exact ⟨this.1, by simpa using this.2⟩
+  have hbfilter : (bootFold (replay s.manifest)).cat.entries.filter (·.kind == Kind.table)
+      = (bootFold (replay s.manifest)).cat.entries := by
+    rw [List.filter_eq_self]
+    intro e he
+    simp [(hbmem e he).2]
+  have hman : replay (txn (List.map (fun k => Rec.addRowSet k.fst k.snd) s.rowsets ++
+      List.map (fun k => Rec.addDV k.fst k.snd.fst k.snd.snd) (List.map DvE.key s.dvs) ++
+      (bootFold (replay s.manifest)).tableOps)) = rewriteOps (bootFold (replay s.manifest)) := by
+    rw [← inv.sync.rs, ← inv.sync.dv]; exact hrep
+  have hcl' : Closed (txn (List.map (fun k => Rec.addRowSet k.fst k.snd) s.rowsets ++
+      List.map (fun k => Rec.addDV k.fst k.snd.fst k.snd.snd) (List.map DvE.key s.dvs) ++
+      (bootFold (replay s.manifest)).tableOps)) := by
+    rw [← inv.sync.rs, ← inv.sync.dv]; exact hcl
   unfold Store.reopen
-  simp only [h.ok, h.rs, h.tables, h.dv, a1, a2, a3, Bool.false_eq_true, if_false,
-    openDvs_eq s.dvFiles s.dvs h.dvFiles]
-  refine ⟨_, rfl, ?_, ?_, inv.sync.cat, rfl, ?_⟩
-  · have hman : replay (txn (List.map (fun k => Rec.addRowSet k.fst k.snd) s.rowsets ++
-        List.map (fun k => Rec.addDV k.fst k.snd.fst k.snd.snd) (List.map DvE.key s.dvs) ++
-        (bootFold (replay s.manifest)).tableOps)) = rewriteOps (bootFold (replay s.manifest)) := by
-      rw [← h.rs, ← h.dv]; exact hrep
-    have hcl' : Closed (txn (List.map (fun k => Rec.addRowSet k.fst k.snd) s.rowsets ++
-        List.map (fun k => Rec.addDV k.fst k.snd.fst k.snd.snd) (List.map DvE.key s.dvs) ++
-        (bootFold (replay s.manifest)).tableOps)) := by
-      rw [← h.rs, ← h.dv]; exact hcl
-    refine ⟨⟨?_, ?_, ?_, by simp⟩,
+  simp only [inv.sync.ok, inv.sync.rs, inv.sync.tables, inv.sync.dv, a1, a2, a3, Bool.false_eq_true, if_false,
+    openDvs_eq s.dvFiles s.dvs inv.dvFiles]
+  refine ⟨_, rfl, ?_, ?_, inv.sync.cat, rfl, ?_, ?_⟩
+  · refine ⟨⟨?_, ?_, ?_, by simp⟩,
       Sync.mk' (b := bootFold (rewriteOps (bootFold (replay s.manifest)))) (by show bootFold (replay _) = _; rw [hman]) hcl'
-        hrw.2.2.2.1 hrw.1 (by rw [hrw.2.1]; exact inv.sync.tables) (by rw [hrw.2.2.2.2.1]; exact inv.sync.rs)
-        (by rw [hrw.2.2.2.2.2]; exact inv.sync.dv),
-      ?_, ?_, inv.dvLive, ?_, ?_, ?_, ?_, ?_, ?_, ?_, inv.rsTables, inv.dvTables⟩
+        hrw.2.2.2.1 (by rw [hrw.1]; exact hbfilter.symm) (by rw [hrw.2.1]; exact inv.sync.tables)
+        (by rw [hrw.2.2.2.2.1]; exact inv.sync.rs) (by rw [hrw.2.2.2.2.2]; exact inv.sync.dv),
+      ?_, ?_, inv.dvLive, ?_, ?_, ⟨?_, ?_, ?_, ?_, ?_, ?_, ?_, ?_⟩, inv.rsTables, inv.dvTables⟩
     · intro x hx
       have := (List.mem_filter.mp hx).2
-      exact hfresh.1 x.1 (by rw [h.rs]; simpa using this)
-    · intro k hk; exact hfresh.1 k (by rw [h.rs]; exact hk)
+      exact hfresh.1 x.1 (by rw [inv.sync.rs]; simpa using this)
+    · intro k hk; exact hfresh.1 k (by rw [inv.sync.rs]; exact hk)
     · intro e he
       show e.rs < (bootFold (replay s.manifest)).nextRs
-      exact hfresh.1 _ (by rw [h.rs]; exact inv.dvLive e he)
+      exact hfresh.1 _ (by rw [inv.sync.rs]; exact inv.dvLive e he)
     · intro k hk
       show (lookup k (s.dirs.filter fun x => s.rowsets.contains x.1)).isSome
       rw [hdirs k hk]; exact inv.dirs k hk
@@ -875,24 +1006,30 @@ theorem reopen_inv (s : Store) (inv : Inv s) :
       rw [lookup_filter (fun a => (s.dvs.map DvE.key).contains a) e.key (by simpa using List.mem_map_of_mem he)]
       exact h1
     · intro e he
-      exact hfresh.2.1 e.key (by rw [h.dv]; exact List.mem_map_of_mem he)
+      exact hfresh.2.1 e.key (by rw [inv.sync.dv]; exact List.mem_map_of_mem he)
     · intro x hx
       have hx' : x ∈ s.dvFiles.filter fun x => (s.dvs.map DvE.key).contains x.1 := hx
       have := (List.mem_filter.mp hx').2
-      exact hfresh.2.1 x.1 (by rw [h.dv]; simpa using this)
-    · show ∀ e ∈ (bootFold (replay s.manifest)).cat.entries, _
-      rw [inv.sync.cat]; exact inv.catIds
+      exact hfresh.2.1 x.1 (by rw [inv.sync.dv]; simpa using this)
+    · show (bootFold (replay (txn _))).cat.nextId ≤ (bootFold (replay s.manifest)).cat.nextId
+      rw [hman, hrw.1]; exact Nat.le_refl _
+    · exact inv.cati.bootIds
     · show ((bootFold (replay s.manifest)).cat.entries.map _).Nodup
-      rw [inv.sync.cat]; exact inv.idsNodup
+      rw [inv.sync.cat]; exact inv.idsNodup.sublist ((List.filter_sublist).map _)
     · show ((bootFold (replay s.manifest)).cat.entries.map _).Nodup
-      rw [inv.sync.cat]; exact inv.namesNodup
-    · show ∀ e ∈ (bootFold (replay s.manifest)).cat.entries, _
-      rw [inv.sync.cat]; exact inv.catTab
-    · show ∀ x ∈ s.tables, x.1 < (bootFold (replay s.manifest)).cat.nextId
-      rw [inv.sync.cat]; exact inv.tabIds
+      rw [inv.sync.cat]; exact inv.namesNodup.sublist ((List.filter_sublist).map _)
+    · intro e he hk
+      exact inv.catTab e (hbmem e he).1 hk
+    · show ∀ e ∈ (bootFold (replay (txn _))).cat.entries, e.id < (bootFold (replay (txn _))).cat.nextId
+      rw [hman, hrw.1]; exact inv.cati.bootIds
+    · show ∀ x ∈ s.tables, x.1 < (bootFold (replay (txn _))).cat.nextId
+      rw [hman, hrw.1]; exact inv.cati.bootTabIds
+    · exact inv.cati.bootTabIds
   · intro n
-    apply abs_congr
-    · exact h.cat
+    apply abs_congr'
+    · intro m
+      exact tableId?_of_sync (s' := ⟨(bootFold (replay s.manifest)).cat, s.tables, s.rowsets, s.dvs, [], 0, 0, [], [], []⟩)
+        inv.sync.cat inv.namesNodup m
     · rfl
     · rfl
     · rfl
@@ -902,20 +1039,140 @@ theorem reopen_inv (s : Store) (inv : Inv s) :
     · rfl
     · rfl
     · intro rs hrs; exact hdirs _ hrs
+  · show (bootFold (replay (txn _))).cat.nextId = (bootFold (replay s.manifest)).cat.nextId
+    rw [hman, hrw.1]
+
+/-! ### views and indexes: catalog only, but they take ids from the tables' counter -/
+
+theorem entries_id_inj {l : List CatEntry} (hnd : (l.map (·.id)).Nodup) {e e' : CatEntry} (he : e ∈ l) (he' : e' ∈ l)
+    (h : e.id = e'.id) : e = e' := by
+  induction l with
+  | nil => simp at he
+  | cons x l ih =>
+    simp only [List.map_cons, List.nodup_cons] at hnd
+    cases he with
+    | head =>
+      cases he' with
+      | head => rfl
+      | tail _ h2 => exact absurd (List.mem_map.mpr ⟨e', h2, h.symm⟩) hnd.1
+    | tail _ h1 =>
+      cases he' with
+      | head => exact absurd (List.mem_map.mpr ⟨e, h1, h⟩) hnd.1
+      | tail _ h2 => exact ih hnd.2 h1 h2
+
+/-- a statement that only changes the catalog: same log, same tables, the table entries of the
+catalog unchanged, the id counter not decreased -/
+theorem catOnly_inv (s : Store) (inv : Inv s) (c' : Catalog)
+    (hent : c'.entries.filter (·.kind == Kind.table) = s.cat.entries.filter (·.kind == Kind.table))
+    (hnext : s.cat.nextId ≤ c'.nextId)
+    (hids : ∀ e ∈ c'.entries, e.id < c'.nextId) (hidn : (c'.entries.map (·.id)).Nodup)
+    (hnn : (c'.entries.map (·.name)).Nodup)
+    (htab : ∀ e ∈ c'.entries, e.kind = .table → e ∈ s.cat.entries) : Inv { s with cat := c' } := by
+  refine ⟨⟨inv.wf.dirs, inv.wf.rs, inv.wf.dv, inv.wf.pend⟩,
+    ⟨inv.sync.closed, inv.sync.ok, by show _ = c'.entries.filter _; rw [hent]; exact inv.sync.cat, inv.sync.tables,
+      inv.sync.rs, inv.sync.dv⟩,
+    inv.dirs, inv.dvFiles, inv.dvLive, inv.dvIds, inv.dvFileIds,
+    ⟨Nat.le_trans inv.cati.catNext hnext, hids, hidn, hnn, fun e he hk => inv.catTab e (htab e he hk) hk,
+      inv.cati.bootIds, inv.cati.bootTabIds, fun x hx => Nat.lt_of_lt_of_le (inv.tabIds x hx) hnext⟩,
+    inv.rsTables, inv.dvTables⟩
+
+theorem createView_inv (s : Store) (inv : Inv s) (n : String) : Inv (s.createView n).1 := by
+  unfold Store.createView
+  cases ha : s.cat.add n .view with
+  | none => exact inv
+  | some r =>
+    obtain ⟨id, c'⟩ := r
+    obtain ⟨a1, a2, a3⟩ := add_spec _ _ _ _ _ ha
+    subst a3
+    apply catOnly_inv s inv
+    · simp [List.filter_append]
+    · simp
+    · intro e he
+      simp only at he ⊢
+      rcases List.mem_append.mp he with he | he
+      · have := inv.catIds e he; omega
+      · simp at he; subst he; simp
+    · simp only [List.map_append, List.map_cons, List.map_nil]
+      rw [List.nodup_append]
+      refine ⟨inv.idsNodup, by simp, ?_⟩
+      intro a ha' b hb hab
+      simp at hb; subst hb; subst hab
+      obtain ⟨e, he, hid⟩ := List.mem_map.mp ha'
+      have := inv.catIds e he
+      omega
+    · simp only [List.map_append, List.map_cons, List.map_nil]
+      rw [List.nodup_append]
+      refine ⟨inv.namesNodup, by simp, ?_⟩
+      intro a ha' b hb hab
+      simp at hb; subst hb; subst hab
+      exact find?_none_names _ _ a1 ha'
+    · intro e he hk
+      simp only at he
+      rcases List.mem_append.mp he with he | he
+      · exact he
+      · simp at he; subst he; simp at hk
+
+theorem createIndex_inv (s : Store) (inv : Inv s) (n t : String) : Inv (s.createIndex n t).1 := by
+  unfold Store.createIndex
+  cases s.tableId? t with
+  | none => exact inv
+  | some _ =>
+    simp only
+    cases ha : s.cat.addIndex n with
+    | none => exact inv
+    | some r =>
+      obtain ⟨id, c'⟩ := r
+      unfold Catalog.addIndex at ha
+      split at ha
+      · simp at ha
+      · simp at ha
+        obtain ⟨_, rfl⟩ := ha
+        apply catOnly_inv s inv
+        · rfl
+        · simp
+        · intro e he; have := inv.catIds e he; simp only; omega
+        · exact inv.idsNodup
+        · exact inv.namesNodup
+        · intro e he _; exact he
+
+theorem dropView_inv (s : Store) (inv : Inv s) (n : String) (e0 : CatEntry) (h : s.cat.find? n = some e0)
+    (hk : e0.kind = .view) : Inv (s.drop n).1 := by
+  have he0 : e0 ∈ s.cat.entries := List.mem_of_find?_eq_some h
+  have : (s.drop n).1 = { s with cat := s.cat.remove e0.id } := by simp [Store.drop, h, hk]
+  rw [this]
+  apply catOnly_inv s inv
+  · simp only [Catalog.remove, List.filter_filter]
+    apply List.filter_congr
+    intro x hx
+    by_cases hxk : x.kind = .table
+    · have hne : x.id ≠ e0.id := by
+        intro hid
+        have := entries_id_inj inv.idsNodup hx he0 hid
+        rw [this, hk] at hxk; cases hxk
+      simp [hxk, hne]
+    · have : (x.kind == Kind.table) = false := by simpa using hxk
+      simp [this]
+  · exact Nat.le_refl _
+  · intro e he; exact inv.catIds e (List.mem_filter.mp he).1
+  · exact inv.idsNodup.sublist ((List.filter_sublist).map _)
+  · exact inv.namesNodup.sublist ((List.filter_sublist).map _)
+  · intro e he _; exact (List.mem_filter.mp he).1
 
 /-! ### histories -/
 
-/-- what a statement must satisfy, in the state it is issued in, for the history to stay inside
-what the code handles correctly (each clause is forced by a defect that the checks reproduce) -/
+/-- **The exact guard.**  The only statement that needs one is CREATE TABLE: the id the live catalog
+is about to hand out must be the id a replay of the log would hand out, i.e. no view and no index
+has taken an id since the last table was created (or since the last reopen, which forgets views and
+re-aligns the counters).  Views, indexes, DROP, INSERT, DELETE, compaction, vacuum and reopen are
+unrestricted. -/
 def Guard (s : Store) : Op → Prop
-  | .createView _ => False                       -- views / indexes take table ids that are not logged
-  | .createIndex _ _ => False
+  | .create _ => (bootFold (replay s.manifest)).cat.nextId = s.cat.nextId
   | _ => True
 
 instance (s : Store) : (op : Op) → Decidable (Guard s op)
-  | .create _ => isTrue trivial
-  | .createView _ => isFalse id
-  | .createIndex _ _ => isFalse id
+  | .create _ => by unfold Guard; infer_instance
+  | .createView _ => isTrue trivial
+  | .createIndex _ _ => isTrue trivial
   | .delete _ _ => isTrue trivial
   | .compact _ => isTrue trivial
   | .vacuum => isTrue trivial
@@ -944,13 +1201,16 @@ theorem step_inv (s : Store) (inv : Inv s) (op : Op) (g : Guard s op) :
   | create d =>
     cases ha : s.cat.add d.name .table with
     | none => exact ⟨s, by simp [stepUp, Store.createTable, ha], inv⟩
-    | some r => exact ⟨_, rfl, createTable_inv s inv d r.1 r.2 ha⟩
-  | createView n => exact absurd g id
-  | createIndex n t => exact absurd g id
+    | some r => exact ⟨_, rfl, createTable_inv s inv d r.1 r.2 ha g⟩
+  | createView n => exact ⟨_, rfl, createView_inv s inv n⟩
+  | createIndex n t => exact ⟨_, rfl, createIndex_inv s inv n t⟩
   | drop n =>
     cases hf : s.cat.find? n with
     | none => exact ⟨s, by simp [stepUp, Store.drop, hf], inv⟩
-    | some e0 => exact ⟨_, rfl, drop_inv s inv n e0 hf⟩
+    | some e0 =>
+      cases hk : e0.kind with
+      | table => exact ⟨_, rfl, drop_inv s inv n e0 hf hk⟩
+      | view => exact ⟨_, rfl, dropView_inv s inv n e0 hf hk⟩
   | insert n parts =>
     cases h1 : s.tableId? n with
     | none => exact ⟨s, by simp [stepUp, Store.insert, h1], inv⟩
